@@ -55,6 +55,13 @@ def classify(violations, findings):
     return unknown, known
 
 
+def _matches(v, target):
+    """target: (prop, clause) or ((prop, clause), identity digest)"""
+    if isinstance(target[0], tuple):
+        return v.key() == target[0] and core.digest(v.identity) == target[1]
+    return v.key() == target
+
+
 def minimise(mod, spec, target_key, findings, timeout, budget_s=240, log=print):
     """Greedy shrinking while a violation of the same (property, clause) class that is
     not a known finding persists. Candidates of one round are evaluated in parallel."""
@@ -73,7 +80,7 @@ def minimise(mod, spec, target_key, findings, timeout, budget_s=240, log=print):
                 continue
             vs = [core.Violation.from_json(v) for v in val["violations"]]
             unk, _ = classify(vs, findings)
-            if any(v.key() == target_key for v in unk):
+            if any(_matches(v, target_key) for v in unk):
                 picked = c
                 break
         if picked is None:
@@ -115,6 +122,8 @@ def run_check(mod, tier, seed, replay=None):
 
     # ------------------------------------------------------------------ exploration
     n_hist = cfg["histories"]
+    if hasattr(mod, "n_histories"):
+        n_hist = min(n_hist, mod.n_histories(tier))
     budget = cfg.get("budget_s", 1e9)
     batch = cfg.get("batch", 64)
     agg = {
@@ -166,16 +175,21 @@ def run_check(mod, tier, seed, replay=None):
     replay_paths = []
     if unknown:
         rc = core.EXIT_VIOLATION
-        seen = set()
+        seen, seen_clause = set(), set()
+        each = bool(getattr(mod, "SHRINK_EACH_IDENTITY", False))
         for hidx, spec, v in all_violations:
-            if v not in unknown or v.key() in seen:
+            vid = (v.key(), core.digest(v.identity))
+            if v not in unknown or vid in seen:
                 continue
-            seen.add(v.key())
-            if len(seen) > 4:
+            if len(seen) >= int(getattr(mod, "MAX_REPORTS", 8)):
                 break
+            seen.add(vid)
+            do_shrink = each or v.key() not in seen_clause
+            seen_clause.add(v.key())
             small, rounds = (spec, 0)
-            if spec is not None and hasattr(mod, "shrink") and not os.environ.get("VERIF_NO_SHRINK"):
-                small, rounds = minimise(mod, spec, v.key(), findings, timeout, budget_s=cfg.get("shrink_s", 180))
+            if do_shrink and spec is not None and hasattr(mod, "shrink") and not os.environ.get("VERIF_NO_SHRINK"):
+                target = (v.key(), core.digest(v.identity)) if each else v.key()
+                small, rounds = minimise(mod, spec, target, findings, timeout, budget_s=cfg.get("shrink_s", 180))
             vv, logd = v, None
             if small is not None:
                 (st, val), = run_specs(mod, [small], timeout)
@@ -183,7 +197,7 @@ def run_check(mod, tier, seed, replay=None):
                     logd = val.get("log_digest")
                     for x in val["violations"]:
                         x = core.Violation.from_json(x)
-                        if x.key() == v.key() and classify([x], findings)[0]:
+                        if x.key() == v.key() and (not each or core.digest(x.identity) == core.digest(v.identity)) and classify([x], findings)[0]:
                             vv = x
                             break
             path = core.write_replay(
@@ -237,7 +251,7 @@ def run_check(mod, tier, seed, replay=None):
         "harness_errors": agg["harness"][:5],
         "max_residuals": agg.get("max_resid", {}),
         "known_findings_seen": {findings[i]["what"][:80]: c for i, c in known.items()},
-        "exhaustive": bool(cfg.get("exhaustive", False)),
+        "exhaustive": bool(cfg.get("exhaustive", False)) and h >= n_hist and not agg["harness"],
     }
     core.write_evidence(prop, tier, seed, mod.LEVEL, coverage, mod.ASSUMPTIONS, wall, len(unknown),
                         extra={"replays": replay_paths})
